@@ -121,6 +121,9 @@ type vlpLane struct {
 	WClosed    atomic.Bool            // set immediately before the writer's CloseWrite/Close call
 	Reset      atomic.Bool            // lane was reset/stopped on purpose (C32 workloads)
 	WS, RS     atomic.Pointer[Stream] // writer-side / reader-side stream objects (for the stuck dump)
+	ReadErr    atomic.Value           // error that ended the reader (incl. io.EOF), if any
+	ResetCode  atomic.Uint64          // code passed to Reset by the writer
+	ResetAt    atomic.Int64           // bytes written when Reset was called
 }
 
 // vlpDumpStream reads a stream's flow-control state under its own gates (white box), for
@@ -426,6 +429,8 @@ func vlpRunTransfer(seed uint64, rc *vlpRunConfig, setup func(p *vlpPair), viol 
 			}
 		}
 		if resetAt >= 0 && off >= resetAt && fromInitiator {
+			ln.ResetCode.Store(uint64(1000 + ln.Lane))
+			ln.ResetAt.Store(off)
 			ln.Reset.Store(true)
 			ln.WClosed.Store(true)
 			s.Reset(uint64(1000 + ln.Lane))
@@ -488,6 +493,9 @@ func vlpRunTransfer(seed uint64, rc *vlpRunConfig, setup func(p *vlpPair), viol 
 			ln.Read.Store(off)
 			if w := ln.Written.Load(); off > w && !ln.WClosed.Load() && off > ln.Total {
 				viol("read-ahead-of-write", "stream %d: read %d bytes, only %d written", ln.ID, off, w)
+			}
+			if err != nil {
+				ln.ReadErr.Store(err)
 			}
 			if err == io.EOF {
 				if ln.Reset.Load() {
